@@ -41,6 +41,9 @@ var c17Kinds = []struct {
 	// a converter interface without methods (freshly scaffolded): nothing to generate for it, it must not disturb the others
 	{"emptyMarked", "Conv%d", "// :convergen\n", true, false, true},
 	{"emptyUnmarked", "Conv%d", "// Conv is empty.\n", false, false, true},
+	// round 5 (C17-m10): a marked interface one of whose methods carries a notation the tool refuses (`:recv` without a name):
+	// refusing the file is fine, generating for the OTHER methods and saying "done" is not "one function per method"
+	{"docMarkedFaultyMethod", "Conv%d", "// :convergen\n", true, false, false},
 }
 
 var c17Siblings = []struct{ id, src string }{
@@ -89,7 +92,12 @@ func c17Cell(kinds []int, sib, recv int) *scen.Cell {
 		if kd.id == "docMarkedEmbedding" {
 			sb.WriteString(fmt.Sprintf("\tPart%d\n", i))
 		}
-		if kd.empty {
+		if kd.id == "docMarkedFaultyMethod" {
+			if recv == 1 {
+				return nil
+			}
+			sb.WriteString(fmt.Sprintf("\t// :skip Zz\n\tM%da(*S) *D\n\t// :recv\n\tM%db(*S) *D\n", i, i))
+		} else if kd.empty {
 			// no methods
 		} else if recv == 1 {
 			// same method name under different receivers
@@ -139,7 +147,7 @@ func init() {
 			})
 		}
 		e.Rep.Bound("interfaces_per_file_max", maxIntf)
-		e.Rep.Rule(fmt.Sprintf("every sequence of up to %d interfaces in the input file, each of %d marking kinds (named Convergen, :convergen doc line in 3 spellings, :convergen not at line start, :convergenX, unmarked, unmarked with notations, convergen / ConvergenX / MyConvergen names, marked interface embedding an unmarked one, alias form `type X = interface{…}` marked / unmarked, method-less interface marked / unmarked) "+
+		e.Rep.Rule(fmt.Sprintf("every sequence of up to %d interfaces in the input file, each of %d marking kinds (named Convergen, :convergen doc line in 3 spellings, :convergen not at line start, :convergenX, unmarked, unmarked with notations, convergen / ConvergenX / MyConvergen names, marked interface embedding an unmarked one, alias form `type X = interface{…}` marked / unmarked, method-less interface marked / unmarked, marked interface with a method whose notation is refused) "+
 			"x %d sibling-file variants (marked / unmarked interfaces under the convergen tag or in the ordinary build) x {distinct method names, same method name under different :recv}; "+
 			"oracle: generated functions == methods of the input file's interfaces that are named exactly Convergen or carry a :convergen doc line; every other interface carried over identically; nothing generated for sibling files; no marked interface => non-zero exit; "+
 			"non-trivial = mix containing both a selected and an unselected interface (or a sibling-file interface)", maxIntf, nk, len(c17Siblings)))
@@ -176,6 +184,20 @@ func init() {
 			if onlyEmpty && o.Res.Exit != 0 {
 				// every converter interface of the file is empty: nothing to generate, either answer is fine as long as it is not silent
 				t.Outcome("only-empty-converters: rejected")
+				if strings.TrimSpace(o.Res.Stderr) == "" {
+					add("rejected-silently", "rejected without a message")
+				}
+				return fs
+			}
+			anyFaulty := false
+			for _, k := range m.Kinds {
+				if c17Kinds[k].id == "docMarkedFaultyMethod" {
+					anyFaulty = true
+				}
+			}
+			if anyFaulty && o.Res.Exit != 0 {
+				t.Family("faulty-method", false, false)
+				t.Outcome("faulty-method: rejected")
 				if strings.TrimSpace(o.Res.Stderr) == "" {
 					add("rejected-silently", "rejected without a message")
 				}
